@@ -554,10 +554,15 @@ func (s *state) evalCall(node *ast.CallNode) {
 // buffer and returns that result.  nothing is written to the main output.
 func (s *state) renderBlock(node ast.Node) []byte {
 	var buf bytes.Buffer
+	var prev = s.node
 	origWriter := s.wr
 	s.wr = &buf
 	s.walkBlock(node)
 	s.wr = origWriter
+	// the command that owns the block is still the one being executed: an error
+	// after the block (a failing callee, say) is reported there, not at the
+	// block's last node.
+	s.node = prev
 	return buf.Bytes()
 }
 
